@@ -473,7 +473,12 @@ func (s *TxStore) ExistsTx(tx mwdb.ReadTransaction, out *wire.OutPoint) (mtx *wi
 		block: &BlockMeta{},
 	}
 
-	_, credKey, err := existsUnspent(nsUnspent, s.ksmgr.CurrentKeystore().Name(), out)
+	// the selected wallet may have been removed since the caller looked
+	am := s.ksmgr.CurrentKeystore()
+	if am == nil {
+		return nil, nil, ErrNotFound
+	}
+	_, credKey, err := existsUnspent(nsUnspent, am.Name(), out)
 	if err != nil {
 		return nil, nil, err
 	}
@@ -546,7 +551,12 @@ func (s *TxStore) ExistsUtxo(tx mwdb.ReadTransaction, out *wire.OutPoint) (flags
 	opKey := canonicalOutPoint(&out.Hash, out.Index)
 
 	// unspent exists
-	_, credKey, err := existsUnspent(nsUnspent, s.ksmgr.CurrentKeystore().Name(), out)
+	// the selected wallet may have been removed since the caller looked
+	am := s.ksmgr.CurrentKeystore()
+	if am == nil {
+		return nil, ErrNotFound
+	}
+	_, credKey, err := existsUnspent(nsUnspent, am.Name(), out)
 	if err != nil {
 		return nil, err
 	}
